@@ -7,6 +7,7 @@ import BoboVerif.Drivers.Json
 import BoboVerif.Drivers.Validator
 import BoboVerif.Drivers.Actions
 import BoboVerif.Drivers.Engine
+import BoboVerif.Drivers.EngineAsync
 import BoboVerif.Drivers.Locks
 import BoboVerif.Drivers.Builder
 import BoboVerif.Drivers.Run
@@ -27,6 +28,7 @@ def main (args : List String) : IO UInt32 := do
   | ["validator"] => loop Bobo.Drv.Validator.step i o {}; return 0
   | ["actions"]   => loop Bobo.Drv.Actions.step i o {}; return 0
   | ["engine"]    => loop Bobo.Drv.Engine.step i o {}; return 0
+  | ["engineA"]   => loop Bobo.Drv.EngineAsync.step i o {}; return 0
   | ["locks"]     => loop Bobo.Drv.Locks.step i o {}; return 0
   | ["builder"]   => loop Bobo.Drv.Builder.step i o {}; return 0
   | ["run"]       => loop Bobo.Drv.Run.step i o {}; return 0
